@@ -93,9 +93,9 @@ Print Assumptions C06_cast_float.
 
 (* The decidable oracle used by the correspondence run (exact dyadic arithmetic on Z, no float
    operation) holds of the model's output on every valid case. *)
-Theorem C06_oracle : forall c, valid c -> known c = 0 -> oracle c (run c) = true.
+Theorem C06_oracle_conversions : forall c, valid c -> known c = 0 -> oracle c (run c) = true.
 Proof. exact oracle_holds. Qed.
-Print Assumptions C06_oracle.
+Print Assumptions C06_oracle_conversions.
 
 (* The pinned code before the fixes violates the property: implicit unsigned -> signed wrapped, the
    float casts did not round to nearest and accepted NaN, UInt64 -> Int32 had no cast arm. *)
@@ -115,3 +115,93 @@ Theorem C06_legacy_refuted_cast_missing_arm :
             payloads c = [5] /\ oracle c (run_with Legacy.cfg c) = false.
 Proof. exact legacy_refuted_cast_missing. Qed.
 Print Assumptions C06_legacy_refuted_cast_missing_arm.
+
+(* ==== the event filter operators: implicit conversion used for comparisons (operator.rs) ============
+   [compare] models `convert` (the operand whose type has the lower precedence is implicitly converted
+   to the type of the other; ranks extracted from VariantTypeId::precedence) followed by
+   `compare_operands` / `compare_values!`; [five] lists the answers of eq, gt, lt, gte, lte. *)
+From Coq Require Import String.
+From OV Require Import C06.Compare C06.Top C06.CompareProofs C06.CompareFloat Gen.C06Prec.
+
+(* pins: the extracted ranks are the hand-written ranks of the specification table on the ten numeric
+   types, and the body of operator.rs `convert` is the one the model was written for *)
+Example C06_pin_precedence :
+  forallb (fun t => precedence t =? spec_rank t) numeric_types = true.
+Proof. vm_compute. reflexivity. Qed.
+Example C06_pin_operator_convert : operator_convert_body =
+  "let dt1 = v1.type_id(); let dt2 = v2.type_id(); if dt1 != dt2 { if dt1.precedence() < dt2.precedence() { (v1, v2.convert(dt1)) } else { (v1.convert(dt2), v2) } } else { (v1, v2) }"%string.
+Proof. reflexivity. Qed.
+
+(* Two integer operands of ANY two of the eight integer types, any values: the operand whose type has
+   the lower precedence must fit the type of the other; then the outcome is the comparison of the two
+   NUMBERS (so no comparison is ever decided on a wrapped or truncated value), otherwise the
+   comparison is an error and every operator answers false. *)
+Theorem C06_compare_int : forall t1 t2 s1 b1 s2 b2 a b,
+  int_ty t1 = Some (s1, b1) -> int_ty t2 = Some (s2, b2) ->
+  in_range s1 b1 a = true -> in_range s2 b2 b = true ->
+  compare gen_cfg t1 t2 (VInt a) (VInt b) =
+    if (if precedence t1 <? precedence t2 then in_range s1 b1 b else in_range s2 b2 a)
+    then cmp_of (Some (a ?= b)) else CErr.
+Proof. exact compare_int. Qed.
+Print Assumptions C06_compare_int.
+Example C06_compare_int_ex :
+  compare gen_cfg TUInt64 TInt32 (VInt (2 ^ 63)) (VInt 1) = CGt /\
+  compare gen_cfg TInt32 TUInt64 (VInt (-1)) (VInt 5) = CErr /\
+  compare gen_cfg TUInt32 TInt32 (VInt 4000000000) (VInt (-294967296)) = CErr.
+Proof. repeat split; vm_compute; reflexivity. Qed.
+
+(* Variant::convert between two different integer types that has a usable arm yields the value itself
+   when it is in the range of the target and nothing otherwise (used above; the arm exists for every
+   pair in the direction lower -> higher precedence: CompareProofs.table_cmp_ok_true) *)
+Theorem C06_convert_int_exact : forall s t ss sb ts tb n,
+  int_ty s = Some (ss, sb) -> int_ty t = Some (ts, tb) -> ty_eqb s t = false ->
+  in_range ss sb n = true -> arm_ok s t = true ->
+  convert gen_cfg s t (VInt n) = if in_range ts tb n then Res t (VInt n) else Empty.
+Proof. exact convert_int_int. Qed.
+Print Assumptions C06_convert_int_exact.
+
+(* An integer operand (any of the eight integer types, any value) against a finite Double / Float
+   operand, in either order: the integer is converted with round-to-nearest, so the order of the two
+   NUMBERS is never inverted by the comparison; it can only collapse to "equal" (and it is "equal"
+   when the numbers are equal).  [not_gt c]: c is CLt or CEq; [not_lt c]: c is CGt or CEq. *)
+Theorem C06_compare_int_double_monotone : forall t s b n (f : binary_float 53 1024),
+  int_ty t = Some (s, b) -> in_range s b n = true -> is_finite f = true ->
+  ((IZR n < B2R f)%R -> not_gt (compare gen_cfg t TDouble (VInt n) (VF64 f)) /\ not_lt (compare gen_cfg TDouble t (VF64 f) (VInt n))) /\
+  ((B2R f < IZR n)%R -> not_lt (compare gen_cfg t TDouble (VInt n) (VF64 f)) /\ not_gt (compare gen_cfg TDouble t (VF64 f) (VInt n))) /\
+  (IZR n = B2R f -> compare gen_cfg t TDouble (VInt n) (VF64 f) = CEq /\ compare gen_cfg TDouble t (VF64 f) (VInt n) = CEq).
+Proof. exact compare_int_double_monotone. Qed.
+Print Assumptions C06_compare_int_double_monotone.
+
+Theorem C06_compare_int_float_monotone : forall t s b n (f : binary_float 24 128),
+  int_ty t = Some (s, b) -> in_range s b n = true -> is_finite f = true ->
+  ((IZR n < B2R f)%R -> not_gt (compare gen_cfg t TFloat (VInt n) (VF32 f)) /\ not_lt (compare gen_cfg TFloat t (VF32 f) (VInt n))) /\
+  ((B2R f < IZR n)%R -> not_lt (compare gen_cfg t TFloat (VInt n) (VF32 f)) /\ not_gt (compare gen_cfg TFloat t (VF32 f) (VInt n))) /\
+  (IZR n = B2R f -> compare gen_cfg t TFloat (VInt n) (VF32 f) = CEq /\ compare gen_cfg TFloat t (VF32 f) (VInt n) = CEq).
+Proof. exact compare_int_float_monotone. Qed.
+Print Assumptions C06_compare_int_float_monotone.
+Example C06_compare_int_float_ex :
+  compare gen_cfg TInt32 TDouble (VInt 2) (VF64 (f64_of_bits 4609884578576439706)) = CGt /\
+  compare gen_cfg TInt64 TFloat (VInt 16777217) (VF32 (f32_of_bits 1266679808)) = CEq.
+Proof. split; vm_compute; reflexivity. Qed.
+
+(* The oracle of comparison histories holds of the model on every history of integer comparisons.
+   PARTIAL: the full statement is
+     forall l, Forall item_ok l -> check_items l (run_cmp_with gen_cfg l) = true
+   (item_ok: any two of the ten numeric types).  Missing: items with a Float / Double operand, where the
+   oracle allows an order to collapse to "equal" under round-to-nearest.  The model-level fact is proved
+   above (C06_compare_int_double_monotone / _float_monotone, on real numbers); what is missing is the
+   link between the oracle's bit-level view of a float (sign / mantissa / exponent as a dyadic) and
+   B2R for these items.  They are compared with the real code and checked by the oracle in the
+   correspondence run. *)
+Theorem C06_compare_oracle_partial : forall l,
+  Forall int_item l -> check_items l (run_cmp_with gen_cfg l) = true.
+Proof. exact check_items_int. Qed.
+Print Assumptions C06_compare_oracle_partial.
+Example C06_compare_oracle_ex : Forall int_item [mk_item TInt64 7 TInt32 (-1); mk_item TInt64 7 TUInt64 18446744073709551615].
+Proof. repeat constructor; exists true, 64; [exists true, 32 | exists false, 64]; repeat split; reflexivity. Qed.
+
+(* the oracle of the whole case language of the correspondence run (conversions / casts: every valid
+   case; comparison histories: integer operands, see above) *)
+Theorem C06_oracle : forall c, valid_int c -> Top.known c = 0 -> Top.oracle c (Top.run c) = true.
+Proof. exact top_oracle_holds. Qed.
+Print Assumptions C06_oracle.
